@@ -27,6 +27,9 @@ CASES = [
     ("parentheses: (-a)^b loses them on the single-line path", EX, "ExpressionContext::BinaryLHSExponent\n            } else {\n                ExpressionContext::BinaryLHS\n            };\n            let lhs = format_expression_internal(ctx, lhs, lhs_context, shape);", "ExpressionContext::BinaryLHS\n            } else {\n                ExpressionContext::BinaryLHS\n            };\n            let lhs = format_expression_internal(ctx, lhs, lhs_context, shape);", "expr", "default", "C05.single_line.wf"),
     ("luau: function type in a union loses its parentheses", LU, "                || context.contains_intersect\n                || context.contains_union =>", "                || context.contains_intersect =>", "luau", "all", "C02.luau_type_parentheses_kept"),
     ("luau: generic argument pack loses its parentheses", LU, "        _ if context.within_generic => true,\n", "", "luau", "all", "C02.luau_type_parentheses_kept"),
+    ("separator: a space in front of the arguments although comments ended the line", "src/formatters/trivia_util.rs", "        create_indent_trivia(ctx, shape)\n    } else if len >= 2\n        && trivia_is_whitespace", "        separator\n    } else if len >= 2\n        && trivia_is_whitespace", "args", "default", "C10.separator_or_indent"),
+    ("separator: format_call always separates with the style's space", "src/formatters/functions.rs", "            let function_call_trivia = vec![trivia_util::separator_or_indent(\n                ctx,\n                &formatted_function_args.leading_trivia(),\n                shape,\n                create_function_call_trivia(ctx),\n            )];", "            let function_call_trivia = vec![create_function_call_trivia(ctx)];", "args", "default", "C11.call_form"),
+    ("separator: string argument without parentheses always spaced", "src/formatters/functions.rs", "                    Token::new(TokenType::spaces(1)), // Single space before the token reference\n                );\n                let token_reference = token_reference\n                    .update_leading_trivia(FormatTriviaType::Append(vec![separator]));", "                    Token::new(TokenType::spaces(1)), // Single space before the token reference\n                );\n                let token_reference = token_reference\n                    .update_leading_trivia(FormatTriviaType::Append(vec![Token::new(TokenType::spaces(1))]));", "args", "default", "C10.sugar_argument_separated"),
     # harmless changes: must still verify
     ("harmless: a comment added inside format_expression_internal", EX, "            let lhs = format_expression_internal(ctx, lhs, lhs_context, shape);\n", "            // the left operand first\n            let lhs = format_expression_internal(ctx, lhs, lhs_context, shape);\n", "expr", "default", "ok"),
     ("harmless: a hole anchor re-wrapped by rustfmt", EX, "            let shape = shape + strip_leading_trivia(&unop).to_string().len();", "            let shape =\n                shape + strip_leading_trivia(&unop).to_string().len();", "expr", "default", "ok"),
